@@ -113,6 +113,13 @@ void vf_eit_first_success3(bool *os, U *ov, U *nfail, int *fails){
   if (r.has_success()) { *ov = r.get_success_unsafe(); *nfail = 0; }
   else { auto const &v = r.get_failure_unsafe(); *nfail = static_cast<U>(v.size()); for (U k = 0; k < 3 && k < v.size(); ++k) fails[k] = v[k]; }
 }
+void vf_eit_first_success2(bool *os, U *ov, U *nfail, int *fails){
+  std::array<fsfun, 2> const fs{fsfun{0}, fsfun{1}};
+  auto const r = e::first_success(fs);
+  *os = r.has_success();
+  if (r.has_success()) { *ov = r.get_success_unsafe(); *nfail = 0; }
+  else { auto const &v = r.get_failure_unsafe(); *nfail = static_cast<U>(v.size()); for (U k = 0; k < 2 && k < v.size(); ++k) fails[k] = v[k]; }
+}
 // loop: next() yields the successive eithers 0,1,2,...; loop body receives the successes
 U vf_loop_ctr; /* extern "C" global: named in the contract frame */
 int vf_eit_loop(void){ vf_loop_ctr = 0; return e::loop([]{ U const i = vf_loop_ctr++; return vf_fs_s(i) ? eit{vf_fs_v(i)} : eit{vf_fs_f(i)}; }, [](U x){ vf_sink(x); }); }
